@@ -1,8 +1,443 @@
-import CCT.Model.Common
-/-! # C15 — leaf validators (theorems; work in progress) -/
+import CCT.Lemmas.Hex
+/-!
+# C15 — leaf format validators decide exact grammars; one spelling per key
+
+Every theorem is about the executable model of `common.py:286-643, 837-846` (`CCT/Model/Common.lean`),
+for *every* JSON value.  `LowerHex s` is the grammar "non-empty, even length, only `0-9a-f`".
+-/
 namespace CCT.C15
 open CCT
+open Classical
 
-theorem placeholder_checkString (s : PStr) : checkStringJ (.str s) = .ok () := rfl
+/-- a `str` of exactly `n` lowercase hexadecimal ASCII characters -/
+def HexN (n : Nat) (v : J) : Prop := ∃ s, v = .str s ∧ s.length = n ∧ ∀ c ∈ s, isLowerHexDigit c = true
+
+/-- a non-empty even-length lowercase hex `str` -/
+def HexStr (v : J) : Prop := ∃ s, v = .str s ∧ LowerHex s
+
+theorem hexN_hexStr {n : Nat} {v : J} (hn : 0 < n) (he : n % 2 = 0) (h : HexN n v) : HexStr v := by
+  obtain ⟨s, rfl, hl, hall⟩ := h
+  refine ⟨s, rfl, ?_, by omega, hall⟩
+  intro e; subst e; simp at hl; omega
+
+/-- `checkformat_hex_string` accepts exactly the grammar, and otherwise raises an argument error -/
+theorem checkHexString_iff (v : J) : checkHexStringJ v = .ok () ↔ HexStr v := by
+  cases v with
+  | str s =>
+    rw [checkHexStringJ_str]
+    constructor
+    · intro h; by_cases hl : LowerHex s
+      · exact ⟨s, rfl, hl⟩
+      · simp [hl] at h
+    · rintro ⟨t, ht, hl⟩; cases ht; simp [hl]
+  | _ => constructor <;> intro h <;> first | (obtain ⟨_, h, _⟩ := h; cases h) | cases h
+
+theorem checkHexString_total (v : J) : checkHexStringJ v = .ok () ∨ checkHexStringJ v = .error .arg := by
+  cases v with
+  | str s => rw [checkHexStringJ_str]; by_cases hl : LowerHex s <;> simp [hl]
+  | _ => right; rfl
+
+theorem isHexString_eq (v : J) : isHexStringJ v = .ok (decide (HexStr v)) := by
+  unfold isHexStringJ
+  rcases checkHexString_total v with h | h
+  · have := (checkHexString_iff v).mp h
+    simp [h, predOf, this]
+  · have : ¬ HexStr v := fun hs => by rw [(checkHexString_iff v).mpr hs] at h; cases h
+    simp [h, predOf, this]
+
+theorem pyLenJ_str (s : PStr) : pyLenJ (.str s) = .ok s.length := rfl
+
+/-- `checkformat_hex_key` accepts exactly 64 lowercase hexadecimal characters -/
+theorem checkHexKey_iff (v : J) : checkHexKeyJ v = .ok () ↔ HexN 64 v := by
+  unfold checkHexKeyJ
+  rcases checkHexString_total v with h | h
+  · obtain ⟨s, rfl, hl⟩ := (checkHexString_iff v).mp h
+    simp only [h, bind, Except.bind, pyLenJ_str]
+    constructor
+    · intro hk
+      by_cases h64 : s.length = 64
+      · exact ⟨s, rfl, h64, hl.2.2⟩
+      · simp [h64] at hk
+    · rintro ⟨t, ht, h64, _⟩; cases ht; simp [h64, okU]
+  · simp only [h, bind, Except.bind]
+    constructor
+    · intro hk; cases hk
+    · intro hk
+      have := (checkHexString_iff v).mpr (hexN_hexStr (by decide) (by decide) hk)
+      rw [this] at h; cases h
+
+theorem checkHexKey_total (v : J) : checkHexKeyJ v = .ok () ∨ checkHexKeyJ v = .error .arg := by
+  unfold checkHexKeyJ
+  rcases checkHexString_total v with h | h
+  · obtain ⟨s, rfl, hl⟩ := (checkHexString_iff v).mp h
+    simp only [h, bind, Except.bind, pyLenJ_str]
+    by_cases h64 : s.length = 64 <;> simp [h64, okU]
+  · simp [h, bind, Except.bind]
+
+theorem isHexKey_eq (v : J) : isHexKeyJ v = .ok (decide (HexN 64 v)) := by
+  unfold isHexKeyJ
+  rcases checkHexKey_total v with h | h
+  · have := (checkHexKey_iff v).mp h
+    simp [h, predOf, this]
+  · have : ¬ HexN 64 v := fun hs => by rw [(checkHexKey_iff v).mpr hs] at h; cases h
+    simp [h, predOf, this]
+
+/-- `is_hex_signature` is true exactly on 128 lowercase hexadecimal characters (and never raises) -/
+theorem isHexSignature_eq (v : J) : isHexSignatureJ v = .ok (decide (HexN 128 v)) := by
+  unfold isHexSignatureJ
+  rw [isHexString_eq]
+  by_cases hs : HexStr v
+  · obtain ⟨s, rfl, hl⟩ := hs
+    have : HexStr (.str s) := ⟨s, rfl, hl⟩
+    simp only [this, decide_true, bind, Except.bind, pyLenJ_str, pure, Except.pure, if_true]
+    congr 1
+    by_cases h : s.length = 128
+    · have : HexN 128 (.str s) := ⟨s, rfl, h, hl.2.2⟩
+      simp [h, this]
+    · have : ¬ HexN 128 (.str s) := by rintro ⟨t, ht, h', _⟩; cases ht; exact h h'
+      simp [h, this]
+  · have : ¬ HexN 128 v := fun h => hs (hexN_hexStr (by decide) (by decide) h)
+    simp [hs, this, bind, Except.bind, pure, Except.pure]
+
+/-- `checkformat_gpg_fingerprint` accepts exactly 40 lowercase hexadecimal characters -/
+theorem checkGpgFingerprint_iff (v : J) : checkGpgFingerprintJ v = .ok () ↔ HexN 40 v := by
+  cases v with
+  | str s =>
+    have key := hexString_tests_iff s
+    simp only [checkGpgFingerprintJ, pyLenJ_str, bind, Except.bind]
+    by_cases h40 : s.length = 40
+    · simp only [h40, ne_eq, not_true_eq_false, if_false]
+      constructor
+      · intro h
+        cases hp : pyFromHex s with
+        | none => simp [hp] at h
+        | some b =>
+          simp only [hp] at h
+          by_cases hx : (!asciiIsAlnum s || !asciiIsLower s) = true
+          · simp [hx] at h
+          · simp only [Bool.or_eq_true, Bool.not_eq_true', not_or, Bool.not_eq_false] at hx
+            have := key.mp ⟨by rw [hp]; rfl, hx.1, hx.2⟩
+            exact ⟨s, rfl, h40, this.2.2⟩
+      · rintro ⟨t, ht, _, hall⟩; cases ht
+        have hl : LowerHex s := ⟨by intro e; subst e; simp at h40, by omega, hall⟩
+        have := key.mpr hl
+        obtain ⟨b, hb⟩ := Option.isSome_iff_exists.mp this.1
+        simp [hb, this.2.1, this.2.2, okU]
+    · simp only [ne_eq, h40, not_false_eq_true, if_true]
+      constructor
+      · intro h; cases h
+      · rintro ⟨t, ht, h', _⟩; cases ht; exact absurd h' h40
+  | arr xs =>
+    simp only [checkGpgFingerprintJ, pyLenJ, bind, Except.bind]
+    constructor
+    · intro h; split at h <;> cases h
+    · rintro ⟨_, h, _⟩; cases h
+  | obj kvs =>
+    simp only [checkGpgFingerprintJ, pyLenJ, bind, Except.bind]
+    constructor
+    · intro h; split at h <;> cases h
+    · rintro ⟨_, h, _⟩; cases h
+  | _ => constructor <;> intro h <;> first | (obtain ⟨_, h, _⟩ := h; cases h) | cases h
+
+theorem checkGpgFingerprint_total (v : J) : checkGpgFingerprintJ v = .ok () ∨ checkGpgFingerprintJ v = .error .arg := by
+  cases v with
+  | str s =>
+    simp only [checkGpgFingerprintJ, pyLenJ_str, bind, Except.bind]
+    split
+    · right; rfl
+    · cases pyFromHex s with
+      | none => right; rfl
+      | some b => simp only []; split <;> simp [okU]
+  | arr xs => simp only [checkGpgFingerprintJ, pyLenJ, bind, Except.bind]; split <;> simp
+  | obj kvs => simp only [checkGpgFingerprintJ, pyLenJ, bind, Except.bind]; split <;> simp
+  | _ => right; rfl
+
+theorem isGpgFingerprint_eq (v : J) : isGpgFingerprintJ v = .ok (decide (HexN 40 v)) := by
+  unfold isGpgFingerprintJ
+  rcases checkGpgFingerprint_total v with h | h
+  · have := (checkGpgFingerprint_iff v).mp h
+    simp [h, predOf, this]
+  · have : ¬ HexN 40 v := fun hs => by rw [(checkGpgFingerprint_iff v).mpr hs] at h; cases h
+    simp [h, predOf, this]
+
+-- signature entries ---------------------------------------------------------------------------------
+
+/-- the OpenPGP shape: exactly the fields `other_headers`, `signature` and optionally `see_also`, each of its grammar -/
+def GpgShape (v : J) : Prop :=
+  ∃ kvs, v = .obj kvs ∧
+    (keysAre kvs [ps! "other_headers", ps! "signature"] = true ∨
+     keysAre kvs [ps! "other_headers", ps! "see_also", ps! "signature"] = true) ∧
+    (∃ h, dictGet (ps! "other_headers") kvs = some h ∧ HexStr h) ∧
+    (∃ g, dictGet (ps! "signature") kvs = some g ∧ HexN 128 g) ∧
+    (∀ f, dictGet (ps! "see_also") kvs = some f → HexN 40 f)
+
+/-- the raw shape: exactly one field `signature` holding 128 lowercase hex characters -/
+def RawShape (v : J) : Prop :=
+  ∃ kvs, v = .obj kvs ∧ kvs.length = 1 ∧ ∃ g, dictGet (ps! "signature") kvs = some g ∧ HexN 128 g
+
+theorem dictIndex_eq (k : PStr) (kvs : List (PStr × J)) :
+    dictIndex k kvs = match dictGet k kvs with | some v => .ok v | none => .error .key := rfl
+
+theorem dictGet_of_keysetEq {kvs : List (PStr × J)} {names : List PStr} {k : PStr}
+    (h : keysetEq kvs names = true) (hk : k ∈ names) : ∃ v, dictGet k kvs = some v := by
+  simp only [keysetEq, Bool.and_eq_true, List.all_eq_true] at h
+  have := h.2 k hk
+  simp only [dictKeys, List.contains_iff_mem, List.mem_map] at this
+  obtain ⟨⟨k', v⟩, hm, rfl⟩ := this
+  clear h
+  induction kvs with
+  | nil => cases hm
+  | cons p r ih =>
+    obtain ⟨k'', v''⟩ := p
+    simp only [dictGet]
+    by_cases e : k'' = k'
+    · exact ⟨v'', by simp [e]⟩
+    · simp only [e, if_false]
+      rcases List.mem_cons.mp hm with h | h
+      · cases h; exact absurd rfl e
+      · exact ih h
+
+/-- `checkformat_gpg_signature` accepts exactly the OpenPGP shape -/
+theorem checkGpgSignature_iff (v : J) : checkGpgSignatureJ v = .ok () ↔ GpgShape v := by
+  cases v with
+  | obj kvs =>
+    simp only [checkGpgSignatureJ, bind, Except.bind]
+    by_cases hk : (keysAre kvs [ps! "other_headers", ps! "signature"] ||
+         keysAre kvs [ps! "other_headers", ps! "see_also", ps! "signature"]) = true
+    · have hk' := hk
+      simp only [Bool.or_eq_true] at hk'
+      have hset : ∃ names, keysetEq kvs names = true ∧ ps! "other_headers" ∈ names ∧ ps! "signature" ∈ names := by
+        rcases hk' with h | h
+        · simp only [keysAre, Bool.and_eq_true] at h; exact ⟨_, h.1, by simp, by simp⟩
+        · simp only [keysAre, Bool.and_eq_true] at h; exact ⟨_, h.1, by simp, by simp⟩
+      obtain ⟨names, hn, m1, m2⟩ := hset
+      obtain ⟨oh, hoh⟩ := dictGet_of_keysetEq hn m1
+      obtain ⟨sg, hsg⟩ := dictGet_of_keysetEq hn m2
+      simp only [hk, Bool.not_true, Bool.false_eq_true, if_false, dictIndex_eq, hoh, hsg, isHexString_eq, isHexSignature_eq]
+      by_cases h1 : HexStr oh
+      · by_cases h2 : HexN 128 sg
+        · simp only [h1, h2, decide_true, Bool.not_true, Bool.false_eq_true, if_false]
+          cases hsa : dictGet (ps! "see_also") kvs with
+          | none =>
+            simp only [dictHas, hsa, Option.isSome_none, Bool.false_eq_true, if_false]
+            constructor
+            · intro _; exact ⟨kvs, rfl, hk', ⟨oh, hoh, h1⟩, ⟨sg, hsg, h2⟩, fun f hf => by rw [hsa] at hf; cases hf⟩
+            · intro _; rfl
+          | some sa =>
+            simp only [dictHas, hsa, Option.isSome_some, if_true]
+            rw [checkGpgFingerprint_iff]
+            constructor
+            · intro h3; exact ⟨kvs, rfl, hk', ⟨oh, hoh, h1⟩, ⟨sg, hsg, h2⟩, fun f hf => by rw [hsa] at hf; cases hf; exact h3⟩
+            · rintro ⟨kvs', e, _, _, _, h5⟩; cases e; exact h5 sa hsa
+        · simp only [h1, h2, decide_true, decide_false, Bool.not_true, Bool.not_false, Bool.false_eq_true, if_false, if_true]
+          constructor
+          · intro h; cases h
+          · rintro ⟨kvs', e, _, _, ⟨g, hg, h4⟩, _⟩; cases e; rw [hsg] at hg; cases hg; exact absurd h4 h2
+      · simp only [h1, decide_false, Bool.not_false, if_true]
+        constructor
+        · intro h; cases h
+        · rintro ⟨kvs', e, _, ⟨h, hh, h3⟩, _⟩; cases e; rw [hoh] at hh; cases hh; exact absurd h3 h1
+    · have hk2 : (keysAre kvs [ps! "other_headers", ps! "signature"] ||
+         keysAre kvs [ps! "other_headers", ps! "see_also", ps! "signature"]) = false := by simpa using hk
+      simp only [hk2, Bool.not_false, if_true]
+      constructor
+      · intro h; cases h
+      · rintro ⟨kvs', e, h2, _⟩; cases e
+        rcases h2 with h | h <;> simp [h] at hk2
+  | _ => constructor <;> intro h <;> first | (obtain ⟨_, h, _⟩ := h; cases h) | cases h
+
+theorem checkGpgSignature_total (v : J) : checkGpgSignatureJ v = .ok () ∨ checkGpgSignatureJ v = .error .arg := by
+  by_cases h : GpgShape v
+  · left; exact (checkGpgSignature_iff v).mpr h
+  · right
+    cases v with
+    | obj kvs =>
+      have hne : checkGpgSignatureJ (.obj kvs) ≠ .ok () := fun e => h ((checkGpgSignature_iff _).mp e)
+      simp only [checkGpgSignatureJ, bind, Except.bind] at hne ⊢
+      split
+      · rfl
+      · rename_i hk
+        simp only [Bool.not_eq_true', Bool.not_eq_false] at hk
+        have hk' := hk
+        simp only [Bool.or_eq_true] at hk'
+        have hset : ∃ names, keysetEq kvs names = true ∧ ps! "other_headers" ∈ names ∧ ps! "signature" ∈ names := by
+          rcases hk' with h | h
+          · simp only [keysAre, Bool.and_eq_true] at h; exact ⟨_, h.1, by simp, by simp⟩
+          · simp only [keysAre, Bool.and_eq_true] at h; exact ⟨_, h.1, by simp, by simp⟩
+        obtain ⟨names, hn, m1, m2⟩ := hset
+        obtain ⟨oh, hoh⟩ := dictGet_of_keysetEq hn m1
+        obtain ⟨sg, hsg⟩ := dictGet_of_keysetEq hn m2
+        simp only [hk, Bool.not_true, Bool.false_eq_true, if_false, dictIndex_eq, hoh, hsg, isHexString_eq, isHexSignature_eq] at hne ⊢
+        by_cases h1 : HexStr oh
+        · by_cases h2 : HexN 128 sg
+          · simp only [h1, h2, decide_true, Bool.not_true, Bool.false_eq_true, if_false] at hne ⊢
+            cases hsa : dictGet (ps! "see_also") kvs with
+            | none => simp [dictHas, hsa, okU] at hne
+            | some sa =>
+              simp only [dictHas, hsa, Option.isSome_some, if_true] at hne ⊢
+              rcases checkGpgFingerprint_total sa with e | e
+              · exact absurd e hne
+              · exact e
+          · simp [h1, h2]
+        · simp [h1]
+    | _ => rfl
+
+theorem isGpgSignature_eq (v : J) : isGpgSignatureJ v = .ok (decide (GpgShape v)) := by
+  unfold isGpgSignatureJ
+  rcases checkGpgSignature_total v with h | h
+  · have := (checkGpgSignature_iff v).mp h
+    simp [h, predOf, this]
+  · have : ¬ GpgShape v := fun hs => by rw [(checkGpgSignature_iff v).mpr hs] at h; cases h
+    simp [h, predOf, this]
+
+/-- `checkformat_signature` accepts exactly the raw or the OpenPGP shape -/
+theorem checkSignature_iff (v : J) : checkSignatureJ v = .ok () ↔ RawShape v ∨ GpgShape v := by
+  cases v with
+  | obj kvs =>
+    simp only [checkSignatureJ, bind, Except.bind, isGpgSignature_eq]
+    cases hs : dictGet (ps! "signature") kvs with
+    | none =>
+      simp only [dictHas, hs, Option.isSome_none, Bool.false_eq_true, if_false, pure, Except.pure, Bool.not_false, if_true]
+      constructor
+      · intro h; cases h
+      · rintro (⟨kvs', e, _, g, hg, _⟩ | ⟨kvs', e, _, _, ⟨g, hg, _⟩, _⟩) <;> cases e <;> rw [hs] at hg <;> cases hg
+    | some sg =>
+      simp only [dictHas, hs, Option.isSome_some, if_true, dictIndex_eq, isHexSignature_eq]
+      by_cases h2 : HexN 128 sg
+      · simp only [h2, decide_true, Bool.not_true, Bool.false_eq_true, if_false]
+        by_cases h1 : kvs.length = 1
+        · simp only [h1, beq_self_eq_true, if_true]
+          constructor
+          · intro _; left; exact ⟨kvs, rfl, h1, sg, hs, h2⟩
+          · intro _; rfl
+        · have : (kvs.length == 1) = false := by simpa using h1
+          simp only [this, Bool.false_eq_true, if_false]
+          by_cases hg : GpgShape (.obj kvs)
+          · have e1 : decide (GpgShape (.obj kvs)) = true := by simp [hg]
+            simp only [e1, if_true]
+            constructor
+            · intro _; right; exact hg
+            · intro _; rfl
+          · have e1 : decide (GpgShape (.obj kvs)) = false := by simp [hg]
+            simp only [e1, Bool.false_eq_true, if_false]
+            constructor
+            · intro h; cases h
+            · rintro (⟨kvs', e, hl, _⟩ | h)
+              · cases e; exact absurd hl h1
+              · exact absurd h hg
+      · simp only [h2, decide_false, Bool.not_false, if_true]
+        constructor
+        · intro h; cases h
+        · rintro (⟨kvs', e, _, g, hg, h4⟩ | ⟨kvs', e, _, _, ⟨g, hg, h4⟩, _⟩) <;> cases e <;> rw [hs] at hg <;> cases hg <;> exact absurd h4 h2
+  | _ => constructor <;> intro h <;> first | (rcases h with ⟨_, h, _⟩ | ⟨_, h, _⟩ <;> cases h) | cases h
+
+theorem checkSignature_total (v : J) : checkSignatureJ v = .ok () ∨ checkSignatureJ v = .error .arg := by
+  cases v with
+  | obj kvs =>
+    simp only [checkSignatureJ, bind, Except.bind, isGpgSignature_eq]
+    cases hs : dictGet (ps! "signature") kvs with
+    | none => simp [dictHas, hs, pure, Except.pure]
+    | some sg =>
+      simp only [dictHas, hs, Option.isSome_some, if_true, dictIndex_eq, isHexSignature_eq]
+      by_cases h2 : HexN 128 sg
+      · simp only [h2, decide_true, Bool.not_true, Bool.false_eq_true, if_false]
+        split
+        · simp [okU]
+        · split <;> simp [okU]
+      · simp [h2]
+  | _ => right; rfl
+
+theorem isSignature_eq (v : J) : isSignatureJ v = .ok (decide (RawShape v ∨ GpgShape v)) := by
+  unfold isSignatureJ
+  rcases checkSignature_total v with h | h
+  · have := (checkSignature_iff v).mp h
+    simp [h, predOf, this]
+  · have : ¬ (RawShape v ∨ GpgShape v) := fun hs => by rw [(checkSignature_iff v).mpr hs] at h; cases h
+    simp [h, predOf, this]
+
+/-- each predicate form agrees with its raising form on every input (six pairs): the predicate never raises,
+and it is true exactly when the raiser returns normally -/
+theorem pred_agrees (v : J) :
+    (isHexStringJ v = .ok true ↔ checkHexStringJ v = .ok ()) ∧
+    (isHexKeyJ v = .ok true ↔ checkHexKeyJ v = .ok ()) ∧
+    (isGpgFingerprintJ v = .ok true ↔ checkGpgFingerprintJ v = .ok ()) ∧
+    (isGpgSignatureJ v = .ok true ↔ checkGpgSignatureJ v = .ok ()) ∧
+    (isSignatureJ v = .ok true ↔ checkSignatureJ v = .ok ()) ∧
+    (∃ b, isHexStringJ v = .ok b) ∧ (∃ b, isHexKeyJ v = .ok b) ∧ (∃ b, isHexSignatureJ v = .ok b) ∧
+    (∃ b, isGpgFingerprintJ v = .ok b) ∧ (∃ b, isGpgSignatureJ v = .ok b) ∧ (∃ b, isSignatureJ v = .ok b) := by
+  refine ⟨?_, ?_, ?_, ?_, ?_, ⟨_, isHexString_eq v⟩, ⟨_, isHexKey_eq v⟩, ⟨_, isHexSignature_eq v⟩,
+    ⟨_, isGpgFingerprint_eq v⟩, ⟨_, isGpgSignature_eq v⟩, ⟨_, isSignature_eq v⟩⟩
+  · rw [isHexString_eq, checkHexString_iff]; simp
+  · rw [isHexKey_eq, checkHexKey_iff]; simp
+  · rw [isGpgFingerprint_eq, checkGpgFingerprint_iff]; simp
+  · rw [isGpgSignature_eq, checkGpgSignature_iff]; simp
+  · rw [isSignature_eq, checkSignature_iff]; simp
+
+/-- distinct accepted key strings always denote distinct key bytes -/
+theorem distinct_keys_distinct_bytes (a b : J) (ha : checkHexKeyJ a = .ok ()) (hb : checkHexKeyJ b = .ok ())
+    (h : unhex (strOf a) = unhex (strOf b)) : a = b := by
+  obtain ⟨s, rfl, hs⟩ := (checkHexString_iff a).mp ((checkHexString_iff a).mpr (hexN_hexStr (by decide) (by decide) ((checkHexKey_iff a).mp ha)))
+  obtain ⟨t, rfl, ht⟩ := (checkHexString_iff b).mp ((checkHexString_iff b).mpr (hexN_hexStr (by decide) (by decide) ((checkHexKey_iff b).mp hb)))
+  simp only [strOf] at h
+  rw [unhex_injective s t hs ht h]
+
+theorem checkKeysLoop_ok : ∀ (ks : List J), checkKeysLoop ks = .ok () → ∀ k ∈ ks, HexN 64 k
+  | [], _, k, hk => by cases hk
+  | x :: r, h, k, hk => by
+    simp only [checkKeysLoop, bind, Except.bind] at h
+    rcases checkHexKey_total x with e | e
+    · rw [e] at h
+      rcases List.mem_cons.mp hk with rfl | hk
+      · exact (checkHexKey_iff _).mp e
+      · exact checkKeysLoop_ok r h k hk
+    · rw [e] at h; cases h
+
+theorem hasDupStr_false : ∀ (l : List PStr), hasDupStr l = false → l.Nodup
+  | [], _ => List.nodup_nil
+  | x :: r, h => by
+    simp only [hasDupStr, Bool.or_eq_false_iff, List.contains_eq_mem, decide_eq_false_iff_not] at h
+    exact List.nodup_cons.mpr ⟨h.1, hasDupStr_false r h.2⟩
+
+theorem nodup_map_on {α β : Type} {f : α → β} : ∀ {l : List α}, (∀ a ∈ l, ∀ b ∈ l, f a = f b → a = b) → l.Nodup → (l.map f).Nodup
+  | [], _, _ => List.nodup_nil
+  | x :: r, hinj, hnd => by
+    have ⟨hx, hr⟩ := List.nodup_cons.mp hnd
+    refine List.nodup_cons.mpr ⟨?_, nodup_map_on (fun a ha b hb => hinj a (by simp [ha]) b (by simp [hb])) hr⟩
+    intro hm
+    obtain ⟨y, hy, hxy⟩ := List.mem_map.mp hm
+    have := hinj y (by simp [hy]) x (by simp) hxy
+    exact hx (this ▸ hy)
+
+/-- a key list accepted as duplicate-free contains no key twice under any spelling: the decoded byte strings are pairwise distinct -/
+theorem keylist_nodup_bytes (ks : List J) (h : checkListOfHexKeysJ (.arr ks) = .ok ()) :
+    ((ks.map strOf).map unhex).Nodup := by
+  simp only [checkListOfHexKeysJ, bind, Except.bind] at h
+  cases hl : checkKeysLoop ks with
+  | error e => rw [hl] at h; cases h
+  | ok u =>
+    rw [hl] at h
+    have hall := checkKeysLoop_ok ks hl
+    have hnd : (ks.map strOf).Nodup := by
+      apply hasDupStr_false
+      cases hd : hasDupStr (ks.map strOf) with
+      | false => rfl
+      | true => simp [hd] at h
+    refine nodup_map_on ?_ hnd
+    intro a ha b hb hab
+    simp only [List.mem_map] at ha hb
+    obtain ⟨ja, hja, rfl⟩ := ha
+    obtain ⟨jb, hjb, rfl⟩ := hb
+    obtain ⟨s, rfl, hs64, hsall⟩ := hall ja hja
+    obtain ⟨t, rfl, ht64, htall⟩ := hall jb hjb
+    simp only [strOf] at hab ⊢
+    exact unhex_injective s t ⟨by intro e; subst e; simp at hs64, by omega, hsall⟩
+      ⟨by intro e; subst e; simp at ht64, by omega, htall⟩ hab
+
+-- non-vacuity --------------------------------------------------------------------------------------
+example : HexN 64 (.str (List.replicate 64 97)) := ⟨_, rfl, by simp, by simp [isLowerHexDigit]⟩
+example : checkHexKeyJ (.str (List.replicate 64 97)) = .ok () := by decide
+example : checkHexKeyJ (.str (List.replicate 64 65)) = .error .arg := by decide        -- upper case
+example : checkHexKeyJ (.str (32 :: List.replicate 63 97)) = .error .arg := by decide  -- whitespace instead of a digit
+example : checkSignatureJ (.obj [(ps! "signature", .str (List.replicate 128 48))]) = .ok () := by decide +kernel
 
 end CCT.C15
